@@ -15,9 +15,12 @@ def cha_targets(ctx):
     """class-hierarchy resolution of dyn calls on the crate's traits into the crate's own impls"""
     A = ctx.A
     table = {}
+    fwd = A.forwarders()
     for b in ctx.prog.bodies:
         it = b.j.get("impl_trait")
         if it and not b.is_closure() and b.j.get("name"):
+            if b.path in fwd:
+                continue  # `impl Trait for Arc<S>` forwarding to S: adds no behaviour of its own
             table.setdefault((it.split("::")[-1], b.j["name"]), []).append(b)
     # default methods of crate traits
     defaults = {}
@@ -71,7 +74,7 @@ def cha_targets(ctx):
         if fn.get("krate") != ctx.prog.facts.crate or not fn.get("trait"):
             return []
         r = fn.get("resolved")
-        if r is not None and r.get("ikind") == "item":
+        if r is not None and r.get("ikind") == "item" and r.get("path") not in fwd:
             return []
         tr = fn["trait"].split("::")[-1]
         m = site.ck.split("::")[-1]
